@@ -50,6 +50,7 @@ PROPS["C03"] = dict(
         stage("corpus", workers=1),
         stage("family"),
         stage("long"),
+        stage("huge", only="thorough", workers=6),
         stage("utf8"),
         stage("bounded"),
         stage("random", kind="rc", quick=6000, thorough=300000, max_size=100),
@@ -57,7 +58,7 @@ PROPS["C03"] = dict(
     rule="Mode-6531 local parts: (a) every 1- and 2-byte sequence, 3-byte sequences over boundary continuation values (quick) or all 255x255 "
          "(thorough), a structured 4-byte cover, each as atom / quoted / escaped / last bytes; (b) all strings of <= 6 (quick) / <= 8 (thorough) "
          "symbols over {a . \" \\ SP 0x01 U+0416 U+20AC U+10348 0x80 0xC3}; (c) the a.X.b / X\"q\" / \"\\X\" family over ~1000 code points; (d) grammar-based "
-         "random local parts with non-ASCII next to dots and quotes; (e) the repository corpus; (f) the 29 length-sweep shapes of C02 with runs of 1-1100 (thorough 1-4200) 1- to 4-byte characters. Non-trivial = contains a byte >= 0x80 together with "
+         "random local parts with non-ASCII next to dots and quotes; (e) the repository corpus; (f) the 29 length-sweep shapes of C02 with runs of 1-1100 (thorough 1-4200) 1- to 4-byte characters; (g) thorough only: six local parts of 2^31+200 octets with verdicts known by construction. Non-trivial = contains a byte >= 0x80 together with "
          "one of . \" \\, or is a malformed-UTF-8 candidate; distinct by byte-string hash.",
     assumptions=["reference: RFC 3629 strict decoder + RFC 5321 grammar over code points (oracle/ref.hpp), default build (no RFC6531_* option)",
                  "validators are called with `end` on the terminating '@' or NUL"],
@@ -75,13 +76,14 @@ PROPS["C04"] = dict(
     stages=[
         stage("corpus", workers=1),
         stage("lengths"),
+        stage("huge", only="thorough", workers=2),
         stage("bounded"),
         stage("random", kind="rc", quick=4000, thorough=300000, max_size=100),
     ],
     rule="Domains: all strings of length <= 7 (quick) / <= 10 (thorough) over {a 1 - . _ !}; every label length 0-300 in first/middle/last position "
          "and alone (3 fillings, hyphen at either end); every total length 240-260 in 4 label layouts with 0/1/2 trailing dots and a leading dot; "
          "every byte 0x01-0xFF at first/interior/last position of a label; numeric shapes; grammar-generated and mutated ASCII and IDN host names; "
-         "the repository's domain corpora. Each is judged by is_ascii_domain and, as x@D with TLD checking off, by eav_is_email in all four "
+         "the repository's domain corpora; thorough only: two host names of 2^31+200 octets. Each is judged by is_ascii_domain and, as x@D with TLD checking off, by eav_is_email in all four "
          "modes. Non-trivial = at least two labels, or length >= 60, or contains a hyphen; distinct by byte-string hash.",
     assumptions=["reference: oracle/ref.hpp::host_ok written from the statement (RFC 1035 limits, LDH, optional single root dot)",
                  "mode 6531 is judged in one direction only, on the A-label form computed by the harness with libidn2 (trusted base)"],
@@ -120,7 +122,7 @@ PROPS["C05"] = dict(
 PROPS["C09"] = dict(
     level="exploration",
     default_binary="c09",
-    binaries={"c09": dict(src=["props/c09.cpp"], variants=["dflt"])},
+    binaries={"c09": dict(src=["props/c09.cpp"], variants=["dflt", "o001"])},
     stages=[
         stage("lengths"),
         stage("random", kind="rc", quick=4000, thorough=250000, max_size=100),
@@ -128,7 +130,7 @@ PROPS["C09"] = dict(
     rule="Valid host names without root dot built from 0-3 leading labels (every length 1-63 for one leading label; an (l1,l2) grid - complete in "
          "thorough - for two; reserved words themselves as leading labels) followed by each of the 8 reserved suffixes and each one-edit neighbour "
          "(insert/delete/substitute at every position, plus hand-picked neighbours such as exampleA, example.co, foo.tests), in 4 case patterns, "
-         "judged by is_special_domain, is_<mode>_email(tld on)->rc and eav_is_email with only the SPECIAL bit cleared, in 4 modes. Every counted case "
+         "judged by is_special_domain, is_<mode>_email(tld on)->rc and eav_is_email with only the SPECIAL bit cleared, in 4 modes, in the default build and (all cases containing '_' plus a sample of the rest) in the LABELS_ALLOW_UNDERSCORE build. Every counted case "
          "ends in a reserved suffix or a neighbour of one, hence is non-trivial; distinct by domain hash.",
     assumptions=["reference: oracle/ref.hpp::reserved (whole-label, case-insensitive match of the last one / two labels)",
                  "domains that are not valid host names, and in mode 6531 domains the IDN library refuses, are outside the statement and skipped (counted)"],
@@ -268,7 +270,7 @@ PROPS["C12"] = dict(
 PROPS["C15"] = dict(
     level="exploration",
     default_binary="c15",
-    binaries={"c15": dict(src=["props/c15.cpp"], variants=["dflt"])},
+    binaries={"c15": dict(src=["props/c15.cpp"], variants=["dflt", "o001"])},
     stages=[
         stage("setup", workers=1),
         stage("codes", workers=1),
@@ -277,7 +279,7 @@ PROPS["C15"] = dict(
     ],
     rule="Inputs: the repository corpus and ~45 hand-picked addresses (one or more per error code), each with every one-byte insertion / replacement "
          "from {. \" @ SP - 0x80 \\ [ 0x01} and every one-byte deletion; grammar-based random addresses of the C01 generator with default and "
-         "random allow_tld; all in 4 modes x tld_check {0,1}. eav_setup with 16 rfc values (4 defined, -1, 4, 5, 7, 100, 255, 256, 65536, INT_MAX, "
+         "random allow_tld; all in 4 modes x tld_check {0,1}; addresses whose domain contains '_' are also judged in the LABELS_ALLOW_UNDERSCORE build. eav_setup with 16 rfc values (4 defined, -1, 4, 5, 7, 100, 255, 256, 65536, INT_MAX, "
          "INT_MIN, ...) after 7 kinds of preceding outcome. All 35 codes through a caller-installed callback (ASCII and UTF-8 dispatch) for the "
          "message rules. Non-trivial = a rejected (input, mode, tld_check) triple; distinct by (error code, mode, tld_check, input) hash. The "
          "classes 'code:<NAME>' in this file list which codes real inputs produced.",
@@ -545,10 +547,10 @@ _add_fuzz("C03", "props/c03.cpp", ["dfuzz"], _D, 60000, 4000000, max_len=120)
 _add_fuzz("C04", "props/c04.cpp", ["dfuzz"], _D, 30000, 2000000, max_len=300)
 _add_fuzz("C05", "props/c05.cpp", ["dfuzz"], _D, 30000, 2000000, max_len=120)
 _add_fuzz("C07", "props/c07.cpp", ["dfuzz"], _D, 15000, 1000000, max_len=120)
-_add_fuzz("C09", "props/c09.cpp", ["dfuzz"], _D, 30000, 2000000, max_len=300)
+_add_fuzz("C09", "props/c09.cpp", ["dfuzz", "f001"], _D + [("o001", "f001")], 30000, 2000000, max_len=300)
 _add_fuzz("C10", "props/c10.cpp", ["dfuzz"], _D, 10000, 1000000)
 _add_fuzz("C12", "props/c12.cpp", ["dfuzz"], _D, 15000, 1500000)
-_add_fuzz("C15", "props/c15.cpp", ["dfuzz"], _D, 15000, 1500000)
+_add_fuzz("C15", "props/c15.cpp", ["dfuzz", "f001"], _D + [("o001", "f001")], 15000, 1500000)
 _add_fuzz("C16", "props/c16.cpp", ["dfuzz", "efuzz"], _D + [("extra", "efuzz")], 10000, 1000000)
 _add_fuzz("C17", "props/c17.cpp", ["dfuzz"] + ["f%d%d%d" % (a, b, c) for a in (0, 1) for b in (0, 1) for c in (0, 1)],
           _D + [("o%d%d%d" % (a, b, c), "f%d%d%d" % (a, b, c)) for a in (0, 1) for b in (0, 1) for c in (0, 1)], 5000, 500000, max_len=120)
